@@ -23,6 +23,7 @@ pub enum Front {
 
 thread_local! {
     static LAST_PANIC: RefCell<Option<String>> = const { RefCell::new(None) };
+    static GUARD_DEPTH: std::cell::Cell<u32> = const { std::cell::Cell::new(0) };
 }
 
 pub fn install_panic_hook() {
@@ -35,13 +36,20 @@ pub fn install_panic_hook() {
             "non-string panic".to_string()
         };
         let loc = info.location().map(|l| format!(" at {}:{}", l.file(), l.line())).unwrap_or_default();
+        if GUARD_DEPTH.with(|d| d.get()) == 0 {
+            // not inside a guarded library call: a bug in the harness itself, make it loud
+            eprintln!("harness panic: {msg}{loc}");
+        }
         LAST_PANIC.with(|p| *p.borrow_mut() = Some(format!("{msg}{loc}")));
     }));
 }
 
 /// Run `f`, turning a panic into Err(message).
 pub fn guarded<T>(f: impl FnOnce() -> T) -> Result<T, String> {
-    match catch_unwind(AssertUnwindSafe(f)) {
+    GUARD_DEPTH.with(|d| d.set(d.get() + 1));
+    let r = catch_unwind(AssertUnwindSafe(f));
+    GUARD_DEPTH.with(|d| d.set(d.get() - 1));
+    match r {
         Ok(v) => Ok(v),
         Err(_) => Err(LAST_PANIC.with(|p| p.borrow_mut().take()).unwrap_or_else(|| "panic".into())),
     }
@@ -213,4 +221,11 @@ pub fn decode_one<C: Codec>(
             fe_poll::<C>(core, &mut st, &mut rd, cancel, poll_cap(data.len(), script), None)
         }
     }
+}
+
+
+/// Debug-format a value that came out of the library. A packet that breaks its own type
+/// invariants (e.g. a String holding invalid UTF-8) can make `Debug` itself panic.
+pub fn safe_debug<T: std::fmt::Debug>(v: &T) -> String {
+    guarded(|| format!("{v:?}")).unwrap_or_else(|m| format!("<Debug of this value panicked: {m}>"))
 }
